@@ -1,7 +1,7 @@
 SPECIFICATION Spec
 CONSTANTS
-  KeysTop = {"a","b"}
-  KeysNested = {"a","b"}
+  KeysTop = {"a","b","c"}
+  KeysNested = {"a"}
   Depth = 2
   Export = FALSE
   Caught = {"TypeError","ValueError"}
